@@ -1054,3 +1054,248 @@ def i_resp_body_is_proof(ex, st, args, ctx):
 INTRINSICS.update({'verifRecorder': i_recorder, 'verifBody': i_body, 'verifHappened': i_happened, 'verifRespHeaderCount': i_resp_header_count, 'verifRespStatus': i_resp_status,
                    'verifRespWriteCount': i_resp_write_count, 'verifRespBodyIsError': i_resp_body_is_error, 'verifRespBodyIsProof': i_resp_body_is_proof})
 BASE.update({'opaque:respwriter.WriteHeader': resp_WriteHeader, 'opaque:respwriter.Write': resp_Write, 'io.ReadAll': io_ReadAll})
+
+
+# ------------------------------------------------------------------------------------------ proving-system files (C11/C15): token streams
+EOF_ERR = Opaque('error', msg=None, eof=True)
+UNEXPECTED_EOF = Opaque('error', msg=None, eof=False, unexpected=True)
+_oid = [0]
+
+
+def new_oid():
+    _oid[0] += 1
+    return _oid[0]
+
+
+def ostate(st, o):
+    return st.heap.get(('opq', o.oid), {})
+
+
+def oset(st, o, **kw):
+    d = dict(st.heap.get(('opq', o.oid), {}))
+    d.update(kw)
+    st.heap[('opq', o.oid)] = d
+
+
+def i_stream(ex, st, args, ctx):
+    """an in-memory file: sequence of tokens written so far"""
+    o = Opaque('stream', oid=new_oid())
+    oset(st, o, tokens=(), pos=0, cut=None)
+    return o
+
+
+def i_truncated_file(ex, st, args, ctx):
+    """a valid proving-system file (8 header bytes + three sections of symbolic sizes >= 1, raw or compressed) cut at a symbolic offset < total"""
+    o = Opaque('stream', oid=new_oid())
+    n = [z3.BitVec('section%d_size' % i, 64) for i in range(3)]
+    cut = z3.BitVec('cut', 64)
+    hdr = [z3.BitVec('hdr[%d]' % i, 8) for i in range(8)]
+    for i, x in enumerate(n):
+        st.draws['section%d_size' % i] = x
+        st.pc.append(z3.And(z3.UGE(x, bvval(1, 64)), z3.ULE(x, bvval(1 << 40, 64))))
+    st.draws['cut'] = cut
+    total = bvval(8, 64) + n[0] + n[1] + n[2]
+    st.pc.append(z3.ULT(cut, total))
+    raw = z3.Bool('file_is_raw')
+    st.draws['file_is_raw'] = raw
+    toks = (('bytes', tuple(hdr[:4])), ('bytes', tuple(hdr[4:])), ('section', 'pk', n[0]), ('section', 'vk', n[1]), ('section', 'cs', n[2]))
+    oset(st, o, tokens=toks, pos=0, cut=cut, off=bvval(0, 64))
+    return o
+
+
+def stream_of(v):
+    v = v.v if isinstance(v, Iface) else v
+    if isinstance(v, Opaque) and v.tag == 'bufreader':
+        return stream_of(v.inner)
+    if isinstance(v, Opaque) and v.tag == 'stream':
+        return v
+    raise Unsupported('not a stream: %r' % (v,))
+
+
+def stream_Write(ex, st, args, ctx):
+    s_ = stream_of(args[0])
+    data = args[1]
+    cells = ex.cells(st, data)
+    if not isinstance(data.len, int):
+        raise Unsupported('stream write of symbolic length')
+    d = ostate(st, s_)
+    oset(st, s_, tokens=d['tokens'] + (('bytes', tuple(cells[:data.len])),))
+    return (bvval(data.len, 64), NIL)
+
+
+def section_write(kind, raw):
+    def f(ex, st, args, ctx):
+        used('gnark %s.WriteTo/WriteRawTo: appends one opaque section (compressed or raw) holding the object; ReadFrom/UnsafeReadFrom restores it from either form' % kind)
+        obj, w = args[0], args[1]
+        s_ = stream_of(w)
+        d = ostate(st, s_)
+        oset(st, s_, tokens=d['tokens'] + (('section', kind, None, obj, raw),))
+        return (z3.BitVec(ex.newsym('written'), 64), NIL)
+    return f
+
+
+def io_ReadFull(ex, st, args, ctx):
+    used('io.ReadFull: fills the buffer or fails (io.EOF / io.ErrUnexpectedEOF) when the stream ends first')
+    s_ = stream_of(args[0])
+    buf = args[1]
+    n = buf.len
+    d = ostate(st, s_)
+    pos = d['pos']
+    if pos >= len(d['tokens']) or d['tokens'][pos][0] != 'bytes' or len(d['tokens'][pos][1]) != n:
+        if d.get('cut') is None:
+            return (bvval(0, 64), EOF_ERR if pos >= len(d['tokens']) else UNEXPECTED_EOF)
+        raise Unsupported('ReadFull does not line up with the file layout')
+    cells = d['tokens'][pos][1]
+
+    def ok(s2):
+        for i in range(n):
+            ex.store(s2, ex.slice_cell_ptr(buf, i), cells[i])
+        d2 = ostate(s2, s_)
+        oset(s2, s_, pos=pos + 1, off=(d2.get('off') + n) if d2.get('off') is not None else None)
+        return (bvval(n, 64), NIL)
+    if d.get('cut') is None:
+        return ok(st)
+    end = d['off'] + n
+    fits = z3.ULE(end, d['cut'])
+    whole_missing = z3.UGE(d['off'], d['cut'])
+    return Forks([(fits, ok, None),
+                  (z3.And(z3.Not(fits), whole_missing), (bvval(0, 64), EOF_ERR), None),
+                  (z3.And(z3.Not(fits), z3.Not(whole_missing)), (z3.BitVec(ex.newsym('partial'), 64), UNEXPECTED_EOF), None)])
+
+
+def section_read(kind):
+    def f(ex, st, args, ctx):
+        used('gnark %s reader on a truncated stream: fails; the error may be io.EOF, io.ErrUnexpectedEOF or another error (cbor returns plain io.EOF)' % kind)
+        obj, r = args[0], args[1]
+        s_ = stream_of(r)
+        d = ostate(st, s_)
+        pos = d['pos']
+        toks = d['tokens']
+        if pos >= len(toks):
+            return (bvval(0, 64), EOF_ERR)
+        t = toks[pos]
+        if t[0] != 'section' or t[1] != kind:
+            return (bvval(0, 64), Iface(-1, Opaque('error', msg=S('unexpected section'), origin=ctx['pos'])))
+        if d.get('cut') is None:
+            oset(st, obj, sys=ostate(st, t[3]).get('sys', getattr(t[3], 'sys', None)), restored_from=t[3], form='raw' if t[4] else 'compressed')
+            oset(st, s_, pos=pos + 1)
+            return (z3.BitVec(ex.newsym('read'), 64), NIL)
+        size = t[2]
+        end = d['off'] + size
+        fits = z3.ULE(end, d['cut'])
+
+        def ok(s2):
+            oset(s2, obj, sys='file', restored_from='file')
+            oset(s2, s_, pos=pos + 1, off=end)
+            return (size, NIL)
+        which = z3.Int(ex.newsym('trunc_error_kind'))
+        other = Iface(-1, Opaque('error', msg=S('decode error'), origin=ctx['pos']))
+        return Forks([(fits, ok, None),
+                      (z3.And(z3.Not(fits), which == 0), (bvval(0, 64), EOF_ERR), None),
+                      (z3.And(z3.Not(fits), which == 1), (bvval(0, 64), UNEXPECTED_EOF), None),
+                      (z3.And(z3.Not(fits), which == 2), (bvval(0, 64), other), None)])
+    return f
+
+
+def new_key(kind):
+    def f(ex, st, args, ctx):
+        o = Opaque(kind, oid=new_oid(), sys=None)
+        return o
+    return f
+
+
+def i_stub_key2(kind):
+    def f(ex, st, args, ctx):
+        return Opaque(kind, sys=name_of(args[0]), oid=new_oid())
+    return f
+
+
+def i_same_object(ex, st, args, ctx):
+    """the reloaded object (b) was restored from the original (a)"""
+    a, b = args
+    a = a.v if isinstance(a, Iface) else a
+    b = b.v if isinstance(b, Iface) else b
+    if not isinstance(a, Opaque) or not isinstance(b, Opaque):
+        return z3.BoolVal(False)
+    return z3.BoolVal(ostate(st, b).get('restored_from') is a and a.tag == b.tag)
+
+
+def i_reader_of(ex, st, args, ctx):
+    """a fresh reader positioned at the start of what was written to the stream"""
+    s_ = stream_of(args[0])
+    oset(st, s_, pos=0)
+    return s_
+
+
+def os_Open(ex, st, args, ctx):
+    used('os.Open: fails, or returns the file registered by the harness')
+    f = st.heap.get(('file_for_open',))
+    if f is None:
+        return (NIL, Iface(-1, Opaque('error', msg=S('open failed'), origin=ctx['pos'])))
+    c = z3.Bool(ex.newsym('open_ok'))
+    return Forks([(c, (f, NIL), None), (z3.Not(c), (NIL, Iface(-1, Opaque('error', msg=S('no such file'), origin=ctx['pos']))), None)])
+
+
+def i_set_file(ex, st, args, ctx):
+    st.heap[('file_for_open',)] = stream_of(args[0])
+    return None
+
+
+def file_Close(ex, st, args, ctx):
+    used('(*os.File).Close: returns nil or an error')
+    st.events.append(('tag', 'file_closed'))
+    c = z3.Bool(ex.newsym('close_ok'))
+    st.draws['close_ok#%d' % ex.fresh] = c
+    return Forks([(c, NIL, None), (z3.Not(c), Iface(-1, Opaque('error', msg=S('close failed'), origin=ctx['pos'])), None)])
+
+
+def bufio_NewReaderSize(ex, st, args, ctx):
+    return Opaque('bufreader', inner=args[0])
+
+
+def i_is_loaded(ex, st, args, ctx):
+    """the system was completely restored from the file (all three sections)"""
+    ps = ex.load(st, args[0])
+    oks = []
+    for v in ps.f[2:5]:
+        v = v.v if isinstance(v, Iface) else v
+        oks.append(isinstance(v, Opaque) and ostate(st, v).get('restored_from') is not None)
+    return z3.BoolVal(all(oks))
+
+
+INTRINSICS.update({'verifStream': i_stream, 'verifTruncatedFile': i_truncated_file, 'verifReaderOf': i_reader_of, 'verifSameObject': i_same_object,
+                   'verifSetFile': i_set_file, 'verifIsLoaded': i_is_loaded,
+                   'verifStubPK': i_stub_key2('pk'), 'verifStubVK': i_stub_key2('vk'), 'verifStubCS': i_stub_key2('cs')})
+BASE.update({'opaque:stream.Write': stream_Write, 'io.ReadFull': io_ReadFull, 'os.Open': os_Open, 'opaque:stream.Close': file_Close, '(*os.File).Close': file_Close,
+             'bufio.NewReaderSize': bufio_NewReaderSize,
+             'opaque:pk.WriteTo': section_write('pk', False), 'opaque:pk.WriteRawTo': section_write('pk', True),
+             'opaque:vk.WriteTo': section_write('vk', False), 'opaque:vk.WriteRawTo': section_write('vk', True),
+             'opaque:cs.WriteTo': section_write('cs', False),
+             'opaque:pk.UnsafeReadFrom': section_read('pk'), 'opaque:pk.ReadFrom': section_read('pk'),
+             'opaque:vk.UnsafeReadFrom': section_read('vk'), 'opaque:vk.ReadFrom': section_read('vk'),
+             'opaque:cs.ReadFrom': section_read('cs'),
+             'github.com/consensys/gnark/backend/groth16.NewProvingKey': new_key('pk'), 'github.com/consensys/gnark/backend/groth16.NewVerifyingKey': new_key('vk'),
+             'github.com/consensys/gnark/backend/groth16.NewCS': new_key('cs'),
+             'global:io.EOF': lambda ex, st: EOF_ERR, 'global:io.ErrUnexpectedEOF': lambda ex, st: UNEXPECTED_EOF})
+
+
+def be_PutUint32(ex, st, args, ctx):
+    used('binary.BigEndian.PutUint32/Uint32: 4-byte big-endian encoding (bit-vector extract/concat)')
+    _, buf, v = args
+    if isinstance(buf.len, int) and buf.len < 4:
+        raise PathEnd('panic', 'PutUint32 on short buffer')
+    cells = byte_cells_of_bv(v, 4)
+    for i in range(4):
+        ex.store(st, ex.slice_cell_ptr(buf, i), cells[i])
+    return None
+
+
+def be_Uint32(ex, st, args, ctx):
+    _, buf = args
+    if isinstance(buf.len, int) and buf.len < 4:
+        raise PathEnd('panic', 'Uint32 on short buffer')
+    c = ex.cells(st, buf)
+    return z3.simplify(z3.Concat(c[0], c[1], c[2], c[3]))
+
+
+BASE.update({'(encoding/binary.bigEndian).PutUint32': be_PutUint32, '(encoding/binary.bigEndian).Uint32': be_Uint32})
